@@ -27,7 +27,7 @@ FAMS = ("qp", "qp_quartic", "rosenbrock", "exp_wall", "rastrigin", "styblinski_t
 def floors(tier):
     f = {"results_judged": 1500, "restart_results_judged": 500, "restarts_with_a_budget_of_a_few_evaluations": 300, "restart_below_checkpoint_nit": 100, "early_return_on_restart": 40,
          "callable_stop_criteria_runs": 200, "runs_with_logger": 300, "restarts_with_a_scaler_over_an_unscaled_checkpoint": 100, "kept_results_audited_at_the_end": 1500, "restarts_with_analytic_gradient_from_a_finite_difference_checkpoint": 40, "runs_with_objective_redefined": 150, "objective_redefined_at_a_stationary_point_of_the_old_one": 60,
-         "runs_on_domain_restricted_objective": 60, "results_judged_with_the_factorisation_checking_switch": 150, "runs_with_objective_values_and_target_of_order_1e-16_and_below": 60, "__nontrivial__": 25}
+         "runs_on_domain_restricted_objective": 60, "results_judged_with_the_factorisation_checking_switch": 150, "runs_with_objective_values_and_target_of_order_1e-16_and_below": 60, "runs_on_objectives_unbounded_below": 50, "__nontrivial__": 25}
     for k in MESSAGES:
         f["msg:" + k] = 5
     return f
@@ -85,6 +85,13 @@ def cases(tier, seed):
             for rs_ in restarts:
                 rs_["scaler_on_restart"], rs_["target_between"] = None, False
         yield {"problem": ps, "cfg": cfg, "restarts": restarts, "tiny_units": tiny}
+    # objectives unbounded below (quadratics with eigenvalues of both signs on boxes that leave directions open): the run follows them to
+    # magnitudes of 1e150 and more, where products of gradient components overflow - it still has to come back with a documented reason
+    for i in range(120 if tier == "quick" else 3000):
+        ps = gen.rand_spec(rng, ("qp_indefinite",), nmax=40, nmin=3, boxes=("none", "none", "lower", "mixed", "upper"), starts=("interior", "face"))
+        cfg = {"jac": "callable", "maxcor": int(rng.integers(3, 22)), "maxiter": 2000, "maxfun": 100000, "maxls": int(gen.pick(rng, [20, 20, 5])),
+               "ftol": 0.0, "gtol": 0.0, "gtol_callable": False, "target_kind": None, "ftarget_callable": False, "cb": gen.pick(rng, [None, "never"])}
+        yield {"problem": ps, "cfg": cfg, "restarts": [], "tiny_units": None, "unbounded_below": True}
     # runs whose objective is redefined on the fly (update_fun_def): every implication must be true of the returned state
     nu = 400 if tier == "quick" else 12000
     for i in range(nu):
@@ -268,6 +275,8 @@ def run(spec):
             out.sample = dict(spec=spec)
             return out
         out.count("runs_on_domain_restricted_objective")
+    if spec.get("unbounded_below"):
+        out.count("runs_on_objectives_unbounded_below")
     usc = 1.0
     if spec.get("tiny_units") and not spec.get("ufd") and P.spec["family"] != "log_barrier":
         # magnitudes: the same objective expressed in units in which all its values, its gradient and the target are of order 1e-16..1e-60
